@@ -153,7 +153,7 @@ fn family(name: &str, i: u64) -> u64 {
 
 pub fn c14_cases(tier: &str) -> Vec<Value> {
     let caps: &[u64] = if tier == "quick" { &[1, 10, 64, 100, 1000] } else { &[1, 2, 10, 64, 100, 1000, 10_000] };
-    let rates = [0.01, 0.1, 0.5];
+    let rates = [0.001, 0.01, 0.1, 0.5, 0.72, 0.9, 0.99];
     let mut v = Vec::new();
     for &cap in caps {
         for &rate in &rates {
